@@ -19,6 +19,7 @@ var ghostSVs = map[string]string{
 	"KV.itpos":   "Str",
 	"KV.itvalid": "Bool",
 	"TS.touched": "(Array Str Bool)",
+	"KV.writes":  "Int", // number of top-level (individually atomic) writes issued so far
 }
 
 // ensureGhost makes sure the ghost variables a frame mentions exist before they are
@@ -78,6 +79,11 @@ func (env *SpecEnv) kvBuiltin(name string, args []SpecVal) (SpecVal, bool, error
 			return SpecVal{}, true, err
 		}
 		return SpecVal{V: tv("(select " + x.getSV("TS.touched", ghostSVs["TS.touched"]) + " " + env.term(args[0]) + ")"), Go: boolT}, true, nil
+	case "kvwrites":
+		if err := need(0); err != nil {
+			return SpecVal{}, true, err
+		}
+		return SpecVal{V: tv(x.getSV("KV.writes", "Int")), Go: types.Typ[types.Int]}, true, nil
 	case "touchedset":
 		if err := need(0); err != nil {
 			return SpecVal{}, true, err
